@@ -434,5 +434,12 @@ func main() {
 			R.SkipHook("minimal-link program (did not build)")
 		}
 	}
+	// cold start: each entry point as the first library operation of a fresh process (hash registration, constants)
+	for _, ro := range []bool{true, false} {
+		R.Cold("suite", "suite", mc.D{"ro": ro, "dst_len": 20, "msg_len": 5})
+		R.Cold("suite/long tag", "suite", mc.D{"ro": ro, "dst_len": 300, "msg_len": 0})
+	}
+	R.Cold("uniform", "uniform", mc.D{"src": mc.Hex(bytes.Repeat([]byte{0x5a}, 48))})
+	R.Cold("xmd", "xmd", mc.D{"dst_len": 16, "msg_len": 3, "out_len": 96})
 	R.Finish()
 }
